@@ -1,7 +1,7 @@
 (** Helpers for running the VPK model against the implementation (correspondence, checks/c13.py).
     Nothing here is used by a theorem. *)
 From Coq Require Import List NArith ZArith Bool Uint63.
-From SV Require Import Fmt.VpkDir Fmt.VpkDirV2 SM.Vpk Fmt.VpkArchName.
+From SV Require Import Fmt.VpkDir Fmt.VpkDirV2 SM.Vpk Fmt.VpkArchName Fmt.VpkNullStr.
 Import ListNotations.
 Open Scope N_scope.
 
@@ -115,3 +115,66 @@ Definition check_decode_v (dc : dcfg) (file : bytes) (ex : option (N * list ent_
   | Some (v, es, f), Some (xv, xs, fd) => (v =? xv) && ent_match xs (load_table es) && dg_eqb (dg f) fd
   | _, _ => false
   end.
+
+(** run-length literal used by checks/c13.py for long names and streams *)
+Definition nrep (x n : N) : bytes := repeat x (N.to_nat n).
+
+(** iter_nullstr on a byte stream: the strings it yields as (length, crc32) digests and the number of bytes left, or that it raises. *)
+Fixpoint dgs_eqb (a : list bytes) (b : list (N * N)) : bool :=
+  match a, b with [], [] => true | x :: a', y :: b' => dg_eqb (dg x) y && dgs_eqb a' b' | _, _ => false end.
+Definition check_nullstr_dg (k : ncodec) (bs : bytes) (ex : option (list (N * N) * N)) : bool :=
+  match iter_nullstr_k k bs, ex with
+  | None, None => true
+  | Some (l, r), Some (l', n) => dgs_eqb l l' && (len r =? n)
+  | _, _ => false
+  end.
+
+(** VPK.__delitem__ on the nested dicts (SM/VpkNested.v): which deletes succeed and the key structure left, in dict order. *)
+From SV Require Import SM.VpkNested.
+Definition shape_t := list (bytes * list (bytes * list bytes)).
+Definition tree_shape (t : tree) : shape_t := map (fun e => (fst e, map (fun d => (fst d, map fst (snd d))) (snd e))) t.
+Definition shape_tree (s : shape_t) : tree :=
+  map (fun e => (fst e, map (fun d => (fst d, map (fun n => (n, mkInfo 0 [] None 0 0)) (snd d))) (snd e))) s.
+Fixpoint blist_eqb' (a b : list bytes) : bool :=
+  match a, b with [], [] => true | x :: a', y :: b' => bytes_eqb x y && blist_eqb' a' b' | _, _ => false end.
+Fixpoint dshape_eqb (a b : list (bytes * list bytes)) : bool :=
+  match a, b with [], [] => true | (x, l) :: a', (y, m) :: b' => bytes_eqb x y && blist_eqb' l m && dshape_eqb a' b' | _, _ => false end.
+Fixpoint shape_eqb (a b : shape_t) : bool :=
+  match a, b with [], [] => true | (x, l) :: a', (y, m) :: b' => bytes_eqb x y && dshape_eqb l m && shape_eqb a' b' | _, _ => false end.
+Fixpoint bools_eqb (a b : list bool) : bool :=
+  match a, b with [], [] => true | x :: a', y :: b' => Bool.eqb x y && bools_eqb a' b' | _, _ => false end.
+Definition check_ndel (prog : dprog) (s : shape_t) (ks : list key) (oks : list bool) (after : shape_t) : bool :=
+  let '(l, t) := ndel_all prog (shape_tree s) ks in bools_eqb l oks && shape_eqb (tree_shape t) after.
+
+(** Extended histories (SM/VpkApi.v): the same comparison as [check_case] over [xstep] and the translated __exit__ table. *)
+From SV Require Import SM.VpkApi.
+Fixpoint xtrace (et : list exit_row) (cf : vcfg) (st : vstate) (xs : list xop) : option (vstate * list N) :=
+  match xs with
+  | [] => Some (st, [])
+  | x :: r => match xstep et fcrc32 cf st x with
+              | None => None
+              | Some (st', c) => match xtrace et cf st' r with
+                                 | None => None
+                                 | Some (st'', t) => Some (st'', c :: summary cf st' ++ t) end
+              end
+  end.
+Definition check_xcase (et : list exit_row) (cf : vcfg) (xs : list xop) (tr : list N) (fin : list obs_t) (dsk : N * N)
+           (ars : list (N * (N * N))) : N :=
+  match xtrace et cf (init) xs with
+  | None => 1
+  | Some (st, t) =>
+      if negb (nlist_eqb t tr) then 2
+      else if negb (obs_match fin (model_obs cf st)) then 3
+      else if negb (dg_eqb (dg (disk st)) dsk) then 4
+      else if negb (archs_match ars st) then 5
+      else 0
+  end.
+
+(** new_file / del sequences on the nested dicts from an empty archive (SM/VpkNestedMap.v [nrun] over the translated descriptions), the
+    key structure left, and membership of probe names. *)
+From SV Require Import SM.VpkNestedMap.
+Definition check_nrun (g1 g2 : goc) (chk : bool) (prog : dprog) (ops : list nop) (oks : list bool) (after : shape_t)
+           (probes : list (key * bool)) : bool :=
+  let '(l, t) := nrun g1 g2 chk prog [] ops in
+  bools_eqb l oks && shape_eqb (tree_shape t) after
+  && forallb (fun pb => Bool.eqb (match nlookup t (fst pb) with Some _ => true | None => false end) (snd pb)) probes.
